@@ -13,9 +13,9 @@ CHECKS = [
 
     dict(
         property_id="C03",
-        text="Bounded symbolic model checking of the real transform pipeline and base discretizers: (O3.1) symbolic boundaries b1<...<b(m-1)+inf, every contiguous grouping applied through the real convert_to_labels/group_list/convert_to_values, a real BaseDiscretizer fitted and two symbolic probe rows x1<=x2 transformed: z3 proves on every path that the label is that of the first group whose leader >= x, leaders are group maxima and the float output is monotone; (O3.2) real find_quantiles/fit_feature on symbolic reals: boundaries sorted, observed, +inf last; (O3.3) real OrdinalDiscretizer.fit with solver-chosen counts, symbolic target and symbolic min_freq: groups are contiguous runs of the ranking.",
+        text="Bounded symbolic model checking of the real transform pipeline and base discretizers: (O3.1) symbolic boundaries b1<...<b(m-1)+inf, every contiguous grouping applied through the real convert_to_labels/group_list/convert_to_values, a real BaseDiscretizer fitted and two symbolic probe rows x1<=x2 transformed: z3 proves on every path that the label is that of the first group whose leader >= x, leaders are group maxima and the float output is monotone; (O3.2) real find_quantiles/fit_feature on symbolic reals: boundaries sorted, observed, +inf last; (O3.3) real OrdinalDiscretizer.fit with solver-chosen counts, symbolic target and symbolic min_freq: groups are contiguous runs of the ranking; (O3.4) real CategoricalDiscretizer/QualitativeDiscretizer.fit with solver-chosen sizes and positives: fitted order is sorted by training target rate, NaN last; (O3.6) complete fits on symbolic columns.",
         design_ref="DESIGN.md 6/C03",
-        note="Bounds: m<=4 (quick)/6 (thorough) boundaries; n<=9/12 sorted or <=4/6 unsorted symbolic rows; ordinal m<=4/5 modalities, N<=6/10 rows. Rebindings R1,R2,R3 (DESIGN 3.4). Categorical target-rate ordering is checked in C09/C01 harnesses, not here.",
+        note="Bounds: m<=4 (quick)/6 (thorough) boundaries; n<=9/12 sorted or <=4/6 unsorted symbolic rows; ordinal m<=4/5 modalities, N<=6/10 rows. Rebindings R1,R2,R3 (DESIGN 3.4). k<=3/4 categories.",
         technique=TECH,
     ),
     dict(
@@ -37,12 +37,12 @@ CHECKS = [
         property_id="C08",
         text="Bounded symbolic model checking of the fit kernels: real find_quantiles/np_find_quantiles/fit_feature on symbolic reals (no internal error, unique strictly increasing leaders, partition invariant), real OrdinalDiscretizer.fit with solver-chosen counts / symbolic target / symbolic min_freq (terminates, well-formed partition).",
         design_ref="DESIGN.md 6/C08",
-        note="n<=9/12 rows sorted, <=4/6 unsorted; q in 2..10; ordinal m<=4/5. API-tier obligations (complete fits of every class) are added by later rounds of this build.",
+        note="n<=9/12 rows sorted, <=4/6 unsorted; q in 2..10; ordinal m<=4/5. API tier: complete fits of BinaryCarver, ContinuousCarver, Discretizer, QuantitativeDiscretizer, ContinuousDiscretizer on symbolic columns (attributes coherent, partition well formed, dropped features untouched).",
         technique=TECH,
     ),
     dict(
         property_id="C09",
-        text="Bounded symbolic model checking of the base discretizers' min_freq contract: real OrdinalDiscretizer.fit (every bucket >= min_freq of the rows unless one remains, NaN separate) for symbolic min_freq in (0,0.5]; real find_quantiles (strictly increasing observed boundaries then inf, every value with count >= len/q is a boundary, no bucket free of frequent values above 2.5*len/q rows).",
+        text="Bounded symbolic model checking of the base discretizers' min_freq contract: real OrdinalDiscretizer.fit (every bucket >= min_freq of the rows unless one remains, NaN separate) for symbolic min_freq in (0,0.5]; real find_quantiles (strictly increasing observed boundaries then inf, every value with count >= len/q is a boundary, no bucket free of frequent values above 2.5*len/q rows); real CategoricalDiscretizer.fit (a value is in the default group iff rarer than min_freq, NaN separate); complete QuantitativeDiscretizer/Discretizer fits (every bucket >= min_freq/2 unless one remains).",
         design_ref="DESIGN.md 6/C09",
         note="Quantitative claim is stated through q = round(1/min_freq) in 2..10; frequencies compared as one float division (F3/F4).",
         technique=TECH,
@@ -50,9 +50,9 @@ CHECKS = [
 
     dict(
         property_id="C01",
-        text="Bounded symbolic model checking of the carvers' selection logic: the real _get_best_combination (with the real enumeration, grouping, viability, ordering and NaN-placement code) runs on pandas crosstabs whose cells are symbolic; (a) with one unconstrained symbolic measure value per distinct grouped table the solver proves, on every path, that the returned grouping is viable per the property text and that no viable candidate of an independent specification-side enumeration has a strictly larger measure, for ANY association measure incl. ties; that a feature is dropped only when no candidate is viable; that the measured table is exactly the grouped sum; (b) the same with the real chi2-based measures on solver-chosen concrete crosstabs (realisable witnesses).",
+        text="Bounded symbolic model checking of the carvers' selection logic: the real _get_best_combination (with the real enumeration, grouping, viability, ordering and NaN-placement code) runs on pandas crosstabs whose cells are symbolic; (a) with one unconstrained symbolic measure value per distinct grouped table the solver proves, on every path, that the returned grouping is viable per the property text and that no viable candidate of an independent specification-side enumeration has a strictly larger measure, for ANY association measure incl. ties; that a feature is dropped only when no candidate is viable; that the measured table is exactly the grouped sum; (b) the same with the real chi2-based measures on solver-chosen concrete crosstabs (realisable witnesses); (c) the ContinuousCarver's selection logic on symbolic target values per modality with an abstract Kruskal value; (d) complete BinaryCarver/ContinuousCarver fits on symbolic columns compared with an independent brute-force oracle using the real measures.",
         design_ref="DESIGN.md 6/C01",
-        note="k<=3 (quick)/4 (thorough) base modalities + NaN row, selected row totals (concrete, F3), symbolic positives, min_freq_mod concrete or any real in (0,0.5], max_n_mod 2..3, with/without dev crosstab (incl. absent modality, represented as the real _aggregator produces it). Rank agreement under rate ties is judged with a strict and a weak reading (either decision accepted). Counterexamples of the abstract-measure obligation are reported only if they replay with the real measure. ContinuousCarver selection and the end-to-end API tier are separate obligations (see level_note of later rounds).",
+        note="k<=3 (quick)/4 (thorough) base modalities + NaN row, selected row totals (concrete, F3), symbolic positives, min_freq_mod concrete or any real in (0,0.5], max_n_mod 2..3, with/without dev crosstab (incl. absent modality, represented as the real _aggregator produces it). Rank agreement under rate ties is judged with a strict and a weak reading (either decision accepted). Counterexamples of the abstract-measure obligation are reported only if they replay with the real measure. Continuous targets at kernel level range over the integer domain -2..2 (exact float means, F3).",
         technique=TECH,
     ),
     dict(
